@@ -259,7 +259,7 @@ func parsePluginFromDir(ctx context.Context, path string) (string, string, error
 	// walk the path
 	var pluginExecutableFile, pluginName, candidatePluginName string
 	var foundPluginExecutableFile bool
-	var filesWithValidNameFormat []string
+	var filesWithValidNameFormat, namesWithValidNameFormat []string
 	if err := filepath.WalkDir(path, func(p string, d fs.DirEntry, err error) error {
 		if err != nil {
 			return err
@@ -280,6 +280,7 @@ func parsePluginFromDir(ctx context.Context, path string) (string, string, error
 				return nil
 			}
 			filesWithValidNameFormat = append(filesWithValidNameFormat, p)
+			namesWithValidNameFormat = append(namesWithValidNameFormat, candidatePluginName)
 			isExec, err := isExecutableFile(p)
 			if err != nil {
 				return err
@@ -307,7 +308,7 @@ func parsePluginFromDir(ctx context.Context, path string) (string, string, error
 				return "", "", fmt.Errorf("no plugin executable file was found: %w", err)
 			}
 			logger.Warnf("Found candidate plugin executable file %q without executable permission. Setting user executable bit and trying to install.", filepath.Base(candidate))
-			return candidate, candidatePluginName, nil
+			return candidate, namesWithValidNameFormat[0], nil
 		}
 		return "", "", errors.New("no plugin executable file was found")
 	}
